@@ -27,7 +27,7 @@ from . import C03 as base
 RULE = ("random compounds with 0..12 labile hydrogens written H[1] (20% none), natural H (60%), D "
         "already present (30%), 1..4 further atoms with data (ions, energy-dependent included), "
         "density log-uniform in [0.3, 20], D2O fraction and volume fraction uniform in [0,1] with the "
-        "ends forced in 30%, wavelength= or energy= or default; exhaustive: every molecule of the "
+        "ends and their neighbours (0.9995, 0.999999, 1e-9) forced in 35%, wavelength= or energy= or default; exhaustive: every molecule of the "
         "fasta tables (amino acids incl. averaged codes, nucleic acid components, carbohydrates, "
         "lipids, RNA/DNA bases and codes) + beta casein + random sequences; non-trivial when the "
         "compound has a labile hydrogen and another atom; distinct by canonical input")
@@ -53,7 +53,8 @@ def gen_case(rng, pools):
     if not atoms:
         atoms.append(((6, 0, 0), 1.0))
     rng.shuffle(atoms)
-    frac = lambda: rng.choice([0.0, 1.0]) if rng.random() < 0.3 else round(rng.random(), rng.randint(1, 6))  # noqa
+    frac = lambda: rng.choice([0.0, 1.0, 1.0, 0.0, 0.9995, 0.999999, 1e-9, 0.5]) if rng.random() < 0.35 \
+        else round(rng.random(), rng.randint(1, 6))  # noqa
     m = rng.random()
     if m < 0.5:
         beam = ("wavelength", nc.gen_wavelength(rng, pools))
@@ -327,7 +328,7 @@ def run(run: Run) -> int:
     pools = nc.Pools(pt.elements)
     stage_fasta(run, pt, tl, quick)
     run_cases(run, pt, orc, tl, FIXED)
-    n = 1500 if quick else 40000
+    n = 1500 if quick else 50000
     cases = [gen_case(run.rng, pools) for _ in range(n)]
     for i in range(0, n, 2500):
         run_cases(run, pt, orc, tl, cases[i:i + 2500])
